@@ -489,12 +489,117 @@ func runCase(c *Case) (int, string, []string) {
 	return -1, "", names
 }
 
+// outage: free-running rounds of "traffic while the peer goes away and comes back".  A sender keeps sending to an actor
+// on B while B's remote is stopped; after every pending connection attempt has failed B comes back on its address.
+// Judged by the clause of RemoteLink.tla that holds whatever happened to the messages of the outage
+// (C17_FreshAttempt): a later send to the same address makes a fresh attempt that succeeds once the peer is up.
+func outage(round int) string {
+	addrA, addrB := freeAddr(), freeAddr()
+	ra := remote.New(addrA, remote.NewConfig())
+	a, err := actor.NewEngine(actor.NewEngineConfig().WithRemote(ra))
+	if err != nil {
+		return "harness: " + err.Error()
+	}
+	defer func() { ra.Stop().Wait() }()
+	var got atomic.Int64
+	startB := func() (*remote.Remote, error) {
+		rb := remote.New(addrB, remote.NewConfig())
+		b, err := actor.NewEngine(actor.NewEngineConfig().WithRemote(rb))
+		if err != nil {
+			return nil, err
+		}
+		b.SpawnFunc(func(c *actor.Context) {
+			if _, ok := c.Message().(*remote.TestMessage); ok {
+				got.Add(1)
+			}
+		}, "rec", actor.WithID("1"))
+		return rb, nil
+	}
+	rb, err := startB()
+	if err != nil {
+		return "harness: " + err.Error()
+	}
+	target := actor.NewPID(addrB, "rec/1")
+	a.Send(target, &remote.TestMessage{Data: []byte("hello")})
+	for i := 0; got.Load() == 0 && i < 3000; i++ {
+		time.Sleep(10 * time.Millisecond)
+	}
+	if got.Load() == 0 {
+		rb.Stop().Wait()
+		return "harness: first contact with the peer failed"
+	}
+	stop, done := make(chan struct{}), make(chan struct{})
+	go func() {
+		defer close(done)
+		for {
+			select {
+			case <-stop:
+				return
+			default:
+				a.Send(target, &remote.TestMessage{Data: []byte("x")})
+			}
+		}
+	}()
+	time.Sleep(5 * time.Millisecond)
+	rb.Stop().Wait()
+	time.Sleep(50 * time.Millisecond)
+	close(stop)
+	<-done
+	time.Sleep(4 * time.Second) // every pending connection attempt fails (3 dials, about 3 s)
+	rb2, err := startB()
+	if err != nil {
+		return "harness: " + err.Error()
+	}
+	defer func() { rb2.Stop().Wait() }()
+	before := got.Load()
+	for i := 0; i < 8; i++ { // each send may start an attempt of its own; one of them has to get through
+		a.Send(target, &remote.TestMessage{Data: []byte("again")})
+		for j := 0; j < 400 && got.Load() == before; j++ {
+			time.Sleep(10 * time.Millisecond)
+		}
+		if got.Load() > before {
+			return ""
+		}
+	}
+	return fmt.Sprintf("round %d: the peer is up again, but 8 later sends 4 s apart never arrived: no fresh connection attempt is made for its address", round)
+}
+
 func main() {
 	in := flag.String("cases", "", "ndjson file of cases exported by TLC")
 	workers := flag.Int("workers", 8, "")
 	maxFail := flag.Int("max-failures", 6, "")
+	rounds := flag.Int("outage", 0, "run this many free-running outage rounds instead of cases")
 	flag.Parse()
 	slog.SetDefault(slog.New(slog.NewTextHandler(io.Discard, nil)))
+	if *rounds > 0 {
+		var mu sync.Mutex
+		var wg sync.WaitGroup
+		var fails []string
+		next := make(chan int)
+		for w := 0; w < *workers; w++ {
+			wg.Add(1)
+			go func() {
+				defer wg.Done()
+				for k := range next {
+					if what := outage(k); what != "" {
+						mu.Lock()
+						fails = append(fails, what)
+						mu.Unlock()
+					}
+				}
+			}()
+		}
+		for k := 0; k < *rounds; k++ {
+			next <- k
+		}
+		close(next)
+		wg.Wait()
+		json.NewEncoder(os.Stdout).Encode(map[string]any{"rounds": *rounds, "failures": fails})
+		if len(fails) > 0 {
+			os.Exit(1)
+		}
+		return
+	}
 	f, err := os.Open(*in)
 	if err != nil {
 		fmt.Fprintln(os.Stderr, err)
